@@ -63,6 +63,14 @@ MonClass(r) ==
   ELSE IF Len(q) % 2 # 0 THEN "typed-monitor-protocol"
   ELSE ""
 
+\* C10 for the typed layer: the reading subscriber got every published event in order; the one that never read
+\* holds exactly the first `buf` of them
+OverflowClass(r) ==
+  IF ~r.quiet THEN ""
+  ELSE IF Len(r.healthy) # r.published THEN "typed-healthy-lost-events"
+  ELSE IF r.stalled # SubSeq(r.healthy, 1, r.buf) THEN "typed-stalled-not-first-buffer"
+  ELSE ""
+
 VARIABLE i
 Init == i = 1
 Next == /\ i <= Len(Recs)
@@ -70,6 +78,7 @@ Next == /\ i <= Len(Recs)
                c == CASE r.k = "typed.snap" -> SnapClass(r)
                       [] r.k = "typed.req" -> ReqClass(r)
                       [] r.k = "typed.mon" -> MonClass(r)
+                      [] r.k = "typed.overflow" -> OverflowClass(r)
                       [] r.k = "typed.reqcount" -> "typed-request-count"
                       [] r.k = "typed.end" -> (IF r.leak # 0 THEN "typed-leak" ELSE "")
                       [] r.k = "typed.error" -> "typed-error"
